@@ -67,14 +67,14 @@ def witness_c05(v, tier):
     import resource
     import subprocess
     from . import check
-    if not v['label'].startswith('alloc:'):
+    if not (v['label'].startswith('alloc:') or 'undecided-by-verifier' in v['label']):
         return witness_u1(v, tier)
     exe = check.build_replay()
     tried = 0
     for mt in (2, 3, 4, 5):
         for tail in ('1b0000001000000000', '1b00000000ffffffff', '1affffffff', '1b7fffffffffffffff', '1bffffffffffffffff'):
             hx = '%02x%s' % ((mt << 5) | int(tail[:2], 16) & 31, tail[2:])
-            for prefix in ('', '81', 'd8 2a'.replace(' ', '')):
+            for prefix in ('', '81', 'd82a', '5f', '7f', '9f', 'bf', '5f4100', '9f01'):
                 inp = prefix + hx
                 tried += 1
 
@@ -118,6 +118,42 @@ def extra_c10_bounded(prop, tier, seed):
     return res
 
 
+def witness_u5(which):
+    def w(v, tier):
+        out, err = _replay(['u5', 'find', which])
+        if out and out.get('found'):
+            wit = out['witness']
+            return {'found': True, 'witness': wit, 'real': out['real'], 'tried': out['tried'],
+                    'replay_args': ['u5', 'replay', json.dumps(wit)]}
+        return {'found': False, 'tried': (out or {}).get('tried'), 'note': err}
+    return w
+
+
+def extra_u5_bounded(which):
+    def part(prop, tier, seed):
+        """Bounded stand-in (labelled, never counted): the occurrence identities / the JSON-CBOR agreement of
+        the array matcher checked on the REAL validators over every array of length <= 3 over {"x",1,true}
+        x 4 schema shapes x 7 entry kinds x the equivalent spellings."""
+        out, err = _replay(['u5', 'find', which])
+        if out is None:
+            raise engine.Undecided('replay-failed', err)
+        what = ('? / 0*1, * / 0*, + / 1*, *2 / 0*2 give the same verdict (both validators)' if which == 'c09'
+                else 'JSON and CBOR validators give the same verdict for 11 occurrence spellings')
+        res = {'violations': [], 'bounded': [{'check': 'array matcher, real validators: ' + what,
+                                              'bound': 'arrays of length <= 3 over 3 atoms; 4 templates x 7 entry kinds',
+                                              'validations': out.get('tried'), 'found': out.get('found')}]}
+        if out.get('found'):
+            res['violations'].append({
+                'unit': 'U5', 'label': ('occurrence:equivalent-spellings-same-verdict' if which == 'c09'
+                                        else 'array-matcher:json-cbor-same-verdict'),
+                'fn': 'seq_match_entry', 'message': 'the real validators disagree on a small schema/document pair',
+                'clause': [], 'engine': 'replay', 'verifier_output': json.dumps(out),
+                'fixed_witness': {'found': True, 'witness': out['witness'], 'real': out.get('real'),
+                                  'replay_args': ['u5', 'replay', json.dumps(out['witness'])]}})
+        return res
+    return part
+
+
 def witness_u2(v, tier):
     out, err = _replay(['u2', 'find'])
     if out and out.get('found'):
@@ -128,17 +164,38 @@ def witness_u2(v, tier):
 
 
 def control_names():
-    """Alternatives of `control_name` in /repo/cddl.pest, in grammar order (re-extracted every run)."""
+    """Alternatives of `control_name` in /repo/cddl.pest, in grammar (PEG choice) order, re-extracted on
+    every run.  Alternatives may be string literals or references to rules that are themselves plain
+    ordered choices of literals / such rules; nested ordered choices are flattened in order, which
+    preserves PEG semantics."""
     import re
     g = open(os.path.join(engine.REPO, 'cddl.pest')).read()
-    m = re.search(r'^control_name\s*=\s*\{(.*?)\}', g, re.S | re.M)
-    if not m:
-        raise engine.Undecided('anchor-lost', 'control_name rule not found in cddl.pest')
-    body = m.group(1)
-    names = re.findall(r'"([^"]+)"', body)
-    rest = re.sub(r'"[^"]+"', '', body)
-    if re.sub(r'[\s|]', '', rest):
-        raise engine.Undecided('unsupported', 'control_name is no longer a plain list of literals: %r' % rest.strip())
+    g = re.sub(r'//[^\n]*', '', g)
+
+    def rule_body(name):
+        m = re.search(r'^\s*%s\s*=\s*[_@$!]?\{(.*?)\}' % re.escape(name), g, re.S | re.M)
+        if not m:
+            raise engine.Undecided('anchor-lost', 'rule %s not found in cddl.pest' % name)
+        return m.group(1)
+
+    def expand(name, depth=0):
+        if depth > 8:
+            raise engine.Undecided('unsupported', 'control_name: rule nesting too deep')
+        out = []
+        for alt in rule_body(name).split('|'):
+            alt = alt.strip()
+            if not alt:
+                continue
+            m = re.fullmatch(r'\^?"([^"]+)"', alt)
+            if m:
+                out.append(m.group(1))
+            elif re.fullmatch(r'[A-Za-z_][A-Za-z0-9_]*', alt):
+                out.extend(expand(alt, depth + 1))
+            else:
+                raise engine.Undecided('unsupported', 'control_name: alternative `%s` is neither a literal nor a rule name' % alt)
+        return out
+
+    names = expand('control_name')
     if not names:
         raise engine.Undecided('anchor-lost', 'control_name has no alternatives')
     os.makedirs(os.path.join(engine.CACHE, 'gen'), exist_ok=True)
@@ -280,6 +337,8 @@ PROPS = {
     },
     'C09': {
         'vx': ['U5'],
+        'extra': [extra_u5_bounded('c09')],
+        'witness': witness_u5('c09'),
         'technique': 'Verus postconditions on mechanically extracted fragments (R7) of the real array matchers over the real cddl::ast::Occur + identity lemma',
         'level_text': 'Occurrence identities only: the statement that turns an occurrence indicator into (min, max) iteration bounds inside seq_match_entry - in the JSON and in the CBOR validator - is proved equal to one spec function occ_bounds over the REAL cddl::ast::Occur type, and a lemma shows ? = 0*1, * = 0* (= *), + = 1*, *m = 0*m on that spec; a token-level frame obligation shows the occurrence value is not read again after that statement, so the rest of the matcher depends on it only through (min, max). Operator identities (/, .and, .within, .eq/.ne, ranges) and prelude-name identities live inside the visitors and are not decided.',
         'level_note': 'Trusted: Verus+Z3; rustc agreement between the fragment and the enclosing function (R7 wraps the statement in a generated fn, nothing inside changes). Unverified: the greedy loop and seq_match_entry_once, map-group occurrence handling (validate_repeating_member_count etc.), every other identity named in C09.',
@@ -289,6 +348,8 @@ PROPS = {
     },
     'C04': {
         'vx': ['U5'],
+        'extra': [extra_u5_bounded('c04')],
+        'witness': witness_u5('c04'),
         'technique': 'mirror lemma: the JSON and the CBOR copy of a duplicated pure helper meet the same Verus spec',
         'level_text': 'Mirror obligations only: the duplicated occurrence->(min,max) statement of the array matcher in json.rs and in cbor.rs are both proved equal to the same spec function, hence to each other, for every occurrence value. Agreement of the two validators verdicts is not decided (relational property over two 4-6 kLoC visitors).',
         'level_note': 'Trusted: as for C09. Everything else in the two validators is unverified.',
